@@ -407,9 +407,61 @@ class Gen:
             out.append(Case(sel, [0x40], tag="trunc-dyn-head"))
         return out
 
+    @staticmethod
+    def enc_dynarr(elems):
+        """tail of a bytes[] / string[] argument: (count word, [offset table ++ (length, padded data)*]); an element is
+        `bytes` or (length, [data words]) for symbolic content"""
+        n = len(elems)
+        offs, body, pos = [], [], 32 * n
+        for el in elems:
+            ln, words = (len(el), words_of_bytes(el)) if isinstance(el, bytes) else el
+            offs.append(pos)
+            body += [ln] + list(words)
+            pos += 32 * (1 + len(words))
+        return ("dyn", n, offs + body)
+
+    def dynarr_cases(self, e):
+        """bytes[] / string[] operands in valid ABI encoding: equal pairs, same shape with different contents, different
+        shapes.  (The pinned code refuses these selectors; an implementation that answers must answer element-wise.)"""
+        sel, out = e["sel"], []
+        m = (lambda: self.msg()) if e["has_msg"] else (lambda: None)
+        rng = self.rng
+        rb = lambda n: bytes(rng.randrange(1, 256) for _ in range(n))
+        long_a = rb(33)
+        long_b = long_a[:-1] + bytes([long_a[-1] ^ 1])
+        e32 = rb(32)
+        pairs = [
+            ("same-shape-diff", [b"foo", b"bar"], [b"foo", b"baz"]),
+            ("same-shape-diff", [b"fop", b"bar"], [b"foo", b"bar"]),
+            ("same-shape-diff", [long_a], [long_b]),
+            ("same-shape-diff", [b"a", e32, b""], [b"a", e32[:-1] + bytes([e32[-1] ^ 0x80]), b""]),
+            ("same-shape-diff", [b"\x01"], [b"\x02"]),
+            ("equal", [b"foo", b"bar"], [b"foo", b"bar"]),
+            ("equal", [long_a, b""], [long_a, b""]),
+            ("equal", [], []),
+            ("equal", [b""], [b""]),
+            ("diff-count", [b"foo"], [b"foo", b"bar"]),
+            ("diff-count", [], [b""]),
+            ("diff-count", [b"", b""], [b""]),
+            ("diff-lengths", [b"ab", b"c"], [b"a", b"bc"]),
+            ("diff-lengths", [b"\x00a"], [b"a"]),
+            ("diff-lengths", [b"a\x00"], [b"a"]),
+        ]
+        if not self.thorough:
+            must = [p for p in pairs if p[0] == "same-shape-diff"][:3] + [pairs[5], pairs[7], pairs[9], pairs[12]]
+            rest = [p for p in pairs if p not in must]
+            pairs = must + rng.sample(rest, 2)
+        for tag, a, b in pairs:
+            out.append(Case(sel, encode(sel, [self.enc_dynarr(a), self.enc_dynarr(b)], m()), tag=f"dynarr-{tag}"))
+        # symbolic element contents, same shape: equal iff the words agree
+        out.append(Case(sel, encode(sel, [self.enc_dynarr([(32, [V(0)]), b"x"]), self.enc_dynarr([(32, [V(1)]), b"x"])], m()), tag="dynarr-sym"))
+        return out
+
     def cases_for(self, e):
         if e["operands"] == 1:
             cs = self.unary_cases(e)
+        elif e["is_array"] and e["ty"] in ("bytes", "string"):
+            cs = self.dynarr_cases(e) + self.dyn_cases(e)[:2]
         elif e["is_array"] or e["ty"] in ("bytes", "string"):
             cs = self.dyn_cases(e) + self.concrete_relation_cases(e)
         else:
@@ -1148,6 +1200,15 @@ def check_level1(ctx, R, recs, replies, by_sel):
                 if res["raised"] != want:
                     # the implementation does something else than the model on an input where the model says it raises
                     mismatch(ctx, f"model/impl mismatch (exception): model {model}, real {res.get('raised_text') or res.get('succ')} on {base}")
+                    # refusing the call is acceptable; a definite verdict must be the Forge-std relation on the decoded operands
+                    if res["raised"] is None and res.get("cond") is not None and spec in ("continues", "fails"):
+                        real_val = R.evalb(res["cond"], vals)
+                        if real_val != (spec == "continues"):
+                            ctx.violation(f"cond:{kl}:{'false-for-holding' if spec == 'continues' else 'true-for-violated'}-relation",
+                                          f"{case.sig}: the condition built by the handler is {real_val} but the Forge-std relation "
+                                          f"{'holds' if spec == 'continues' else 'does not hold'} on the decoded operands ({case.tag})", base)
+                        else:
+                            ctx.count("l1-answered-where-model-refuses:agrees-with-spec")
                 ctx.count("l1-outcome:" + want)
                 if want in ("notImplemented", "unicodeDecode", "overflow"):
                     ctx.count("l1-escaping-exception:" + want)
@@ -1273,6 +1334,12 @@ def level2_programs(ctx, G, entries):
             pick += rng.sample(sym, min(len(sym), ctx.scale(2, 4)))
         if conc:
             pick += rng.sample(conc, min(len(conc), ctx.scale(1, 3)))
+        da = [c for c in cs if c.tag.startswith("dynarr") and c not in pick]
+        if da:
+            first = {}
+            for c in da:
+                first.setdefault(c.tag, c)
+            pick += list(first.values())      # one of every kind (same shape / equal / different count / lengths / symbolic)
         if e["op"] in ("Lt", "Gt", "Le", "Ge"):
             # operands on opposite sides of 2^255: always through the SEVM too (concrete, half-symbolic, symbolic)
             pick += [c for c in sym if c.tag == "ss" and c not in pick]
@@ -1484,10 +1551,15 @@ def check_level2(ctx, R, D, jobs, replies, concs, by_sel):
                     else:
                         if not sr.escaped:
                             mismatch(ctx, f"model/impl mismatch: model says {want} escapes, real run ended normally: {rp_json}")
+                            # the implementation answered where the model refuses: its answer must be the Spec's
+                            specs = [rp.get("spec") for rp in rps]
+                            if all(x in ("continues", "fails", "discarded") for x in specs):
+                                fails, alive, malformed = expected_script(specs)
                         ctx.count("l2-outcome:escaped-" + want)
                 else:
                     ctx.count("l2-outcome:malformed-accepted")
-                continue
+                if malformed:
+                    continue
             if sr.escaped:
                 ctx.violation(f"l2:{kl}:exception-escaped", f"an exception escaped SEVM.run on a well-formed cheatcode call: {sr.escaped[:120]}", rp_json)
                 continue
